@@ -161,9 +161,21 @@ func mergeHeaps(vc *VC, ps []heapParent, noName bool) *Heap {
 // if ms.all). Variables written only on fresh objects keep their values on every object
 // that existed before. The allocation clock only grows.
 func (h *Heap) havoc(ms *ModSet, why string) *Heap {
+	return h.havocSince(ms, why, "")
+}
+
+// havocSince: like havoc, but level-1 variables ("written only on objects allocated by this code")
+// keep their values on every object older than `since` (a clock term). A call uses the clock at
+// the call; a LOOP must use the clock at FUNCTION ENTRY, because level 1 in a loop's mod-set
+// means "allocated by this function", possibly before the loop was entered.
+func (h *Heap) havocSince(ms *ModSet, why string, since string) *Heap {
 	vc := h.vc
 	vc.u.clockVar()
 	oldc := h.get("clock")
+	frameClock := oldc
+	if since != "" {
+		frameClock = since
+	}
 	var n *Heap
 	var havoced [][2]string
 	if ms != nil && ms.all {
@@ -186,15 +198,15 @@ func (h *Heap) havoc(ms *ModSet, why string) *Heap {
 				if ms.vars[v] == 1 {
 					old := h.get(v)
 					if strings.HasPrefix(v, "E_") || strings.HasPrefix(v, "MD_") || strings.HasPrefix(v, "MV_") {
-						vc.assume(fmt.Sprintf("(forall ((r Int)) (! (=> (< r %s) (= (select %s r) (select %s r))) :pattern ((select %s r))))", oldc, c, old, c))
+						vc.assume(fmt.Sprintf("(forall ((r Int)) (! (=> (< r %s) (= (select %s r) (select %s r))) :pattern ((select %s r))))", frameClock, c, old, c))
 						if strings.HasPrefix(v, "E_") {
 							// the same frame at the level of the slice accessor, so that facts stated with
 							// at_X over the old incarnation are found from terms over the new one
 							at := "at_" + strings.TrimPrefix(v, "E_")
-							vc.assume(fmt.Sprintf("(forall ((s Slice) (k Int)) (! (=> (< (s_base s) %s) (= (%s %s s k) (%s %s s k))) :pattern ((%s %s s k))))", oldc, at, c, at, old, at, c))
+							vc.assume(fmt.Sprintf("(forall ((s Slice) (k Int)) (! (=> (< (s_base s) %s) (= (%s %s s k) (%s %s s k))) :pattern ((%s %s s k))))", frameClock, at, c, at, old, at, c))
 						}
 					} else {
-						vc.assume(fmt.Sprintf("(forall ((r Int)) (! (=> (< (root r) %s) (= (select %s r) (select %s r))) :pattern ((select %s r))))", oldc, c, old, c))
+						vc.assume(fmt.Sprintf("(forall ((r Int)) (! (=> (< (root r) %s) (= (select %s r) (select %s r))) :pattern ((select %s r))))", frameClock, c, old, c))
 					}
 				}
 			}
